@@ -259,3 +259,67 @@ fn password_without_user_name_sets_the_password_flag() {
     assert_eq!(rd_bin(b, &mut pos), b"tok");
     assert_eq!(pos, b.len());
 }
+
+const SECS: [u64; 14] = [0, 1, 255, 256, 65535, 65536, 16_777_215, 16_777_216, 16_777_217, 2_147_483_647, 2_147_483_648, 4_294_967_293, 4_294_967_294, 4_294_967_295];
+
+#[test]
+fn numeric_options_are_written_exactly_at_boundary_values() {
+    // PUBLISH message expiry interval (property 2), through the handle
+    for &s in SECS.iter() {
+        let mut b = Bench::connected(&[]);
+        let mut h = b.handle.clone();
+        let _p = b.exec.spawn(async move { errstr(h.publish(PublishOpts::new().topic_name("t").message_expiry_interval(Duration::from_secs(s)).payload(b"x")).await) });
+        b.exec.settle();
+        let f = b.written();
+        assert_eq!(f.len(), 1, "secs={}", s);
+        let w = &f[0];
+        let mut pos = 1;
+        rd_vbi(w, &mut pos);
+        rd_bin(w, &mut pos);
+        let props = rd_props(w, &mut pos);
+        assert_eq!(props, vec![(2u8, (s as u32).to_be_bytes().to_vec())], "message expiry {}", s);
+        assert_eq!(&w[pos..], b"x");
+    }
+    // CONNECT: session expiry (17), keep alive (variable header), will delay (24) and will message expiry (2)
+    for &s in SECS.iter() {
+        let ka = (s % 65536) as u16;
+        let w = connect_bytes(
+            ConnectOpts::new()
+                .client_identifier("c")
+                .keep_alive(Duration::from_secs(ka as u64))
+                .session_expiry_interval(Duration::from_secs(s))
+                .will_topic("w")
+                .will_payload(b"p")
+                .will_delay_interval(Duration::from_secs(s))
+                .will_message_expiry_interval(Duration::from_secs(s)),
+        );
+        let f = frames(&w);
+        let w = &f[0];
+        let mut pos = 1;
+        rd_vbi(w, &mut pos);
+        assert_eq!(rd_bin(w, &mut pos), b"MQTT");
+        pos += 2; // version, flags
+        assert_eq!(rd_u16(w, &mut pos), ka as usize, "keep alive");
+        let props = rd_props(w, &mut pos);
+        assert!(props.contains(&(17u8, (s as u32).to_be_bytes().to_vec())), "session expiry {}: {:?}", s, props);
+        assert_eq!(rd_bin(w, &mut pos), b"c");
+        let wprops = rd_props(w, &mut pos);
+        assert!(wprops.contains(&(24u8, (s as u32).to_be_bytes().to_vec())), "will delay {}: {:?}", s, wprops);
+        assert!(wprops.contains(&(2u8, (s as u32).to_be_bytes().to_vec())), "will message expiry {}: {:?}", s, wprops);
+    }
+    // DISCONNECT session expiry (17), through the handle
+    for &s in SECS.iter() {
+        let mut b = Bench::connected(&[]);
+        let mut h = b.handle.clone();
+        let _d = b.exec.spawn(async move { errstr(h.disconnect(DisconnectOpts::new().session_expiry_interval(Duration::from_secs(s))).await) });
+        b.exec.settle();
+        let f = b.written();
+        assert_eq!(f.len(), 1);
+        let w = &f[0];
+        let mut pos = 1;
+        rd_vbi(w, &mut pos);
+        pos += 1; // reason
+        let props = rd_props(w, &mut pos);
+        assert_eq!(props, vec![(17u8, (s as u32).to_be_bytes().to_vec())], "disconnect session expiry {}", s);
+    }
+}
